@@ -1,15 +1,21 @@
+import re
 from props import only  # noqa: F401
 
+# default rule (a dump shows a bitset chunk or >= 2 chunks) + 64-bit: a tdump shows >= 2 partitions
+_NT = re.compile(r"\| nc=\d+ na=\d+ nb=[1-9]|\| nc=([2-9]|\d\d+) |\| parts=\[[^\]]*,")
+
 CFG = {
-    "gen_profiles": ["C19"],
-    "cases": {"quick": 400, "thorough": 4000},
+    "gen_profiles": ["C19", "C19T"],
+    "cases": {"quick": 800, "thorough": 8000},
+    "nontrivial": lambda body, mout: any(_NT.search(o) for o in mout),
     # the value produced by the visitor must be represented exactly like the original (same serialised bytes)
     "compare": "full",
     "rule": ("cases = corpus + seeded cases (harness gen --profile C19): a value from a short history is serialised through a recording "
              "serde::Serializer (method names, byte payload, equality with serialize_into), deserialised through hand-written Deserializers "
              "delivering visit_bytes / visit_borrowed_bytes / visit_byte_buf / visit_seq of u8, round-tripped through real postcard and "
              "serde_json, and hand-encoded streams (valid, with trailing bytes, truncated, corrupted) are fed to the visitor; "
-             "non-trivial = some dump shows a bitset chunk or >= 2 chunks; distinct by SHA-1 of the ops"),
+             "non-trivial = some dump shows a bitset chunk or >= 2 chunks; distinct by SHA-1 of the ops. RoaringTreemap (profile C19T): the same through tserde_events / tserde_visit / tserde_rt on treemaps "
+             "with 0-4 partitions and hand-encoded portable 64-bit streams; non-trivial = >= 2 partitions"),
     "targets": {
         "exactly one serialize_bytes call with serialize_into's bytes": r"^serde_events b0 => calls=serialize_bytes n=\d+ sh=[0-9a-f]{16} same=true$",
         "serialised value has a bitset chunk": r"^serde_events b0 => calls=serialize_bytes n=(8[2-9]\d\d|9\d\d\d|\d{5,}) ",
@@ -25,12 +31,24 @@ CFG = {
         "hand-encoded stream accepted (seq)": r"^serde_visit seq b5 hex:\S+ => ok",
         "malformed stream rejected (bytes)": r"^serde_visit (bytes|borrowed|buf) b5 hex:\S* => err",
         "malformed stream rejected (seq)": r"^serde_visit seq b5 hex:\S* => err",
+        "treemap: exactly one serialize_bytes call with serialize_into's bytes": r"^tserde_events t0 => calls=serialize_bytes n=\d+ sh=[0-9a-f]{16} same=true$",
+        "treemap: empty treemap serialised": r"^tserde_events t0 => calls=serialize_bytes n=8 ",
+        "treemap: visit_bytes of own serialisation": r"^tserde_visit bytes t\d+ ser:t0 => ok",
+        "treemap: visit_borrowed_bytes of own serialisation": r"^tserde_visit borrowed t\d+ ser:t0 => ok",
+        "treemap: visit_byte_buf of own serialisation": r"^tserde_visit buf t\d+ ser:t0 => ok",
+        "treemap: visit_seq of own serialisation": r"^tserde_visit seq t\d+ ser:t0 => ok",
+        "treemap: round trip value == original": r"^teq t\d+ t0 => true",
+        "treemap: postcard round trip": r"^tserde_rt postcard t0 => ok eq=true",
+        "treemap: json round trip": r"^tserde_rt json t0 => ok eq=true",
+        "treemap: hand-encoded stream accepted (bytes)": r"^tserde_visit (bytes|borrowed|buf) t5 hex:\S+ => ok",
+        "treemap: hand-encoded stream accepted (seq)": r"^tserde_visit seq t5 hex:\S+ => ok",
+        "treemap: malformed stream rejected": r"^tserde_visit \w+ t5 hex:\S* => err",
     },
     "gaps": [
         "32-bit type: none — C19_visit_roundtrip / C19_rt / C19_roundtrip are unconditional for every well-formed value (shared Bitmap.WF): the codec round trip is C05_decode (codec family), bridged by C19.codecWF_iff",
-        "RoaringTreemap: Serde.serEventsOf / visitOf are generic and the harness code is generic, but the treemap ops (tserde_*) are not wired yet (need the treemap family)",
+        "RoaringTreemap: none — C19_t_events, C19_t_events_methods, C19_t_visit_kinds, C19_t_visit_roundtrip, C19_t_rt are proved in full for well-formed treemaps (Treemap.WFd Bitmap.WF = Treemap.TWF; no codec hypothesis: the treemap round trip is C05_t_decode, lifted from the 32-bit C05_decode)",
         "postcard / serde_json themselves are exercised on the Rust side only (trusted formats); the model prints the property's expectation `ok eq=true`",
     ],
     "level_text": "Theorems (Lean 4, kernel-checked) about the model of the serde impls: Serialize emits exactly one data-model event, bytes(serialize b); the visitor's visit_bytes / visit_borrowed_bytes / visit_byte_buf / visit_seq all run the checked decoder on the delivered bytes, so each returns the original value whenever the codec round trip holds for it (C05). The model is tied to the Rust source (built with --features serde) by a recording Serializer, hand-written Deserializers and real postcard/serde_json round trips on generated values, in two build profiles. Unbounded quantifier = theorem; tie = sampled.",
-    "level_note": "Trusted: Lean kernel; the hand-written model mirrors the code (checked by correspondence on generated values only); serde's trait plumbing (default visit_borrowed_bytes/visit_byte_buf forwarding), postcard and serde_json; the codec round trip is property C05 (C05_decode), used here as a lemma. 32-bit type only so far. See evidence coverage.proof_gaps.",
+    "level_note": "Trusted: Lean kernel; the hand-written model mirrors the code (checked by correspondence on generated values only); serde's trait plumbing (default visit_borrowed_bytes/visit_byte_buf forwarding), postcard and serde_json; the codec round trip is property C05 (C05_decode), used here as a lemma. See evidence coverage.proof_gaps.",
 }
